@@ -60,6 +60,17 @@ func startRaftNode(id uint64, nodeIds []uint64, storage wal.WAL, logger *log.Ent
 		Logger:          logger,
 	}
 
+	// A node that already has raft state in its log must resume from it. Bootstrapping
+	// it again would reset its term and append the initial configuration entries
+	// on top of the existing log.
+	hasState, err := hasExistingState(storage)
+	if err != nil {
+		return nil, err
+	}
+	if hasState {
+		nodeIds = nil
+	}
+
 	verifStart(id, nodeIds, storage)
 	if len(nodeIds) > 0 {
 		var peers []etcdRaft.Peer
@@ -71,6 +82,28 @@ func startRaftNode(id uint64, nodeIds []uint64, storage wal.WAL, logger *log.Ent
 		// Allow the group to join existing cluster
 		return etcdRaft.RestartNode(raftConfig), nil
 	}
+}
+
+func hasExistingState(storage wal.WAL) (bool, error) {
+	hardState, _, err := storage.InitialState()
+	if err != nil {
+		return false, err
+	}
+	if !etcdRaft.IsEmptyHardState(hardState) {
+		return true, nil
+	}
+	lastIndex, err := storage.LastIndex()
+	if err != nil {
+		return false, err
+	}
+	if lastIndex > 0 {
+		return true, nil
+	}
+	snapshot, err := storage.Snapshot()
+	if err != nil {
+		return false, err
+	}
+	return !etcdRaft.IsEmptySnap(snapshot), nil
 }
 
 func NewRaftGroup(id uuid.UUID, nodeIds []uint64, storage wal.WAL, transport *RaftTransport) (*RaftGroup, error) {
